@@ -216,6 +216,21 @@ def part_chars(ctx):
     ctx.hyp('chars', st.binary(min_size=90, max_size=90), body, max_examples=2500 if ctx.quick else 30000)
 
 
+def part_starts(ctx):
+    """Every representative atom as the very first (and as the very last) thing of a source."""
+    conts = (b'', b' = 5\n', b'\nx=1\n', b'(1)\n', b' ', b'\r\ny=2')
+    n = 0
+    for k, (atom, cls) in enumerate(lexatoms.representatives()):
+        if k % ctx.nshards != ctx.shard:
+            continue
+        for c in conts:
+            for src in (atom + c, b'x=1\n' + atom + c):
+                ref = check_source(src, {'text': src}, Choices(atom + c), ctx.open_findings, ctx.stats)
+                if ref is not None:
+                    n += 1
+                    ctx.stats.case(src, True, {'text': show(src, 60)} if n % 97 == 1 else None, ['source_start_or_end_atom'])
+
+
 def part_fuzz(ctx):
     """Coverage-guided bytes -> lexable filter -> the echo oracle (thorough tier; needs atheris)."""
     corpus = [b'x="a\\0001"', b'y=[[\nl]]', b"z='\\x41\\z  b'", b'-- c\r\nq=1', b'f"s"', b'a="\\\nb"', b'x=1']
@@ -224,9 +239,10 @@ def part_fuzz(ctx):
 
 def parts(tier):
     if tier == 'quick':
-        return [('programs', part_programs, 4), ('strings', part_strings, 5), ('soup', part_soup, 3), ('chars', part_chars, 4)]
-    return [('programs', part_programs, 4), ('strings', part_strings, 4), ('soup', part_soup, 3), ('chars', part_chars, 3),
-            ('fuzz', part_fuzz, 2)]
+        return [('programs', part_programs, 4), ('strings', part_strings, 5), ('soup', part_soup, 3), ('chars', part_chars, 3),
+                ('starts', part_starts, 1)]
+    return [('programs', part_programs, 4), ('strings', part_strings, 4), ('soup', part_soup, 3), ('chars', part_chars, 2),
+            ('starts', part_starts, 1), ('fuzz', part_fuzz, 2)]
 
 
 def replay(case):
@@ -236,7 +252,7 @@ def replay(case):
 def vacuity(total, tier):
     msgs = []
     for lab in ('string_escape', 'long_string', 'string_raw_special_byte', 'crlf', 'no_final_newline', 'comment',
-                'program', 'string_soup', 'token_soup'):
+                'program', 'string_soup', 'token_soup', 'source_start_or_end_atom'):
         if total.classes.get(lab, 0) < 20:
             msgs.append('class %s seen %d times' % (lab, total.classes.get(lab, 0)))
     return msgs
